@@ -30,7 +30,7 @@ FS == <<102, 115>>
 x == EVar(NX)
 y == EVar(NY)
 AllToks == {"D", "A", "R", "Dy", "Ry", "{", "I{", "F{", "L{", "W{", "}", "C", "C1", "S", "Q", "Dx", "Fr", "G", "Cg",
-            "T{", "K", "B", "Sw", "So", "Lx{", "Ox{", "E{", "Sr"}
+            "T{", "K", "B", "Sw", "So", "Lx{", "Ox{", "E{", "Sr", "Qf"}
 SmallToks == {"D", "A", "R", "{", "F{", "L{", "W{", "}", "C", "Q"}
 Openers == {"{", "I{", "F{", "L{", "W{", "T{", "Lx{", "Ox{", "E{"}
 TK == <<116, 107>>
@@ -58,6 +58,7 @@ Simple(t, i) ==
       \* the rest of an object pattern is assigned like the other targets (no new binding)
       [] t = "Sr" -> SAssign(EObj(<<Pair(EStr(<<97>>), x), PCollect(y)>>),
                              EObj(<<Pair(EStr(<<97>>), EBin("+", x, EInt(5))), Pair(EStr(<<98>>), EInt(6))>>))
+      [] t = "Qf" -> SOpAssign(EVar(FS), "+", EList(<<EVar(NF)>>))        \* fs += [f]: the named function escapes
       [] t = "Dx" -> SDecl(x, EBin("+", x, EInt(1000)))                  \* the right-hand side reads the outer x
       [] t = "Fr" -> SAssign(EVar(NF), EFunc(<<>>, FALSE, <<SPrint(EInt(777)), SReturn(EFunc(<<>>, FALSE, <<SPrint(EInt(778))>>))>>))
       [] t = "G"  -> SDecl(EVar(<<103, 103>>), EVar(NF))                  \* gg := f
@@ -161,6 +162,10 @@ C04Params ==
     \cup { <<"shadowassign", s>> : s \in ShadowAssign }
     \cup { <<"late", s>> : s \in Late }
     \cup { <<"restassign", s>> : s \in RestAssign }
+    \cup { <<"namedescape", pre \o <<o1, dd, "F{", "R", "A", "}", "Qf", "}", "R">>>> :
+             pre \in {<<>>, <<"D">>}, o1 \in {"{", "I{", "L{", "W{", "T{", "E{"}, dd \in {"D", "Dy"} }
+    \cup { <<"namedescape", <<"D", "F{", "D", "F{", "R", "A", "}", "Qf", "}", "C1", "C1", "R">>>>,
+           <<"namedescape", <<"L{", "D", "F{", "A", "R", "}", "Qf", "Q", "}">>>> }
     \cup { <<"vanish", pre \o <<"E{", dd, "}", "R", dd2, "R">>>> : pre \in {<<>>, <<"D">>}, dd \in {"D", "A", "Dy"}, dd2 \in {"D", "Dy", "A"} }
     \cup { <<"loopvar", s>> : s \in LoopVar }
     \cup { <<"random", RandomSeqs[i].s>> : i \in {j \in 1 .. Len(RandomSeqs) : WellFormed(RandomSeqs[j].s)} }
